@@ -50,6 +50,17 @@ ASSUMPTIONS = ["domain: |k_i| <= 0.98, orders 1..16, and the conditioning predic
                "aliasing (numpy.shares_memory between kept results or with an argument, .base reachable from module globals) is never reported "
                "by itself, it only triggers a probe (the caller rescales the array it was returned in place / one more conversion of "
                "another set of the same order and dtype) and a changed value is reported; the matrix U of rlevinson is not kept",
+               "kind `hetero`: a type code that does not fit the value at its position (real type, non-zero imaginary part; integer type, "
+               "non-integer) falls back to complex / float; the generator makes the reflection coefficients at real-typed positions real; "
+               "tolerances: 5e-10 * r0/e against the ndarray call (as for the other input forms; measured worst 5.9e-5 of it over 6200 "
+               "cases of the unchanged tree), 1e-9 / 1e-8 * max(1, (r0/e)/20) against the harness reference (as in `kept`; worst 5.2e-3 "
+               "of it), 1e-8 * max(1, (r0/e)/20) for the two round trips (worst 1.7e-3 of it), sequences holding numpy.float32 / "
+               "complex64 scalars: 2e-6 * prod((1 + |k_i|) / (1 - |k_i|)), r0/e <= 1e2 only (worst 1.9e-2 of it); excluded input classes "
+               "(reported as findings, reproducer /tmp/finding_C11.py, marked PENDING-FINDING in the module): object-dtype arrays for the "
+               "converters other than rc2poly / rc2ac / levup / levdown (real sets: also ac2poly / ac2rc / LEVINSON), levdown(sequence, e) "
+               "with the error argument on a list / tuple / object array (evaluated without it), lar2rc on unsigned-integer arrays; "
+               "0-d arrays / bare scalars in the place of the sequence are not parameter sets (every sequence converter raises TypeError "
+               "on them) and are not generated",
                "single-precision inputs (float32 / complex64) are evaluated only when r0/e <= 1e2, at tolerance "
                "2e-6 * prod((1 + |k_i|) / (1 - |k_i|)) (the amplification bound of the Levinson / step-down recursions, >= r0/e) "
                "against the double-precision call on the same (rounded) values"]
@@ -63,6 +74,15 @@ RULE = ("random reflection-coefficient sets (real and complex, dyadic, |k| <= 0.
         "ac2rc, rlevinson, LEVINSON, levdown, levup, lar / is / lsf maps) run on every set, the returned objects are kept, and after the "
         "later conversions each is compared with its bytes at return time and with the reference, then used as the input of the "
         "inverse-pair / commuting-square clauses; caller's arguments fresh / one re-used buffer / temporaries (tags kept-*); "
+        "heterogeneous containers (kind `hetero`): the parameter set written down entry by entry as a list / tuple / object-dtype array / "
+        "numpy.array(list) of scalars of DIFFERENT types -- real-typed first entry (Python float / int, numpy.float64 / int64) followed by "
+        "complex entries (autocorrelation [2.0, 0.5+0.25j, ..], polynomial [1, a1, ..], reflection coefficients [0.5, 0.2+0.1j, -0.3j]), "
+        "real-typed entries scattered among complex ones, complex first and real later, numpy scalars next to Python scalars, "
+        "numpy.float32 / complex64 scalars, int / float / numpy scalar mixtures for real sets -- orders 1..16 (1-element sequences "
+        "included), typed scalar arguments (int / numpy scalar / 0-d array r0 and e), all 16 converters: result equal to the result on "
+        "the float64 / complex128 ndarray of the same values and to the harness reference, rc -> poly -> rc and rc -> ac -> rc started "
+        "from the sequence, sequence left unchanged (values and entry types); integer-dtype arrays and lists of Python ints (kind "
+        "`intdtype`: white-noise sets, integer log-area ratios, integer line spectral frequencies, int64 .. int8, uint8); "
         "non-trivial = order >= 2")
 
 
@@ -1017,6 +1037,383 @@ def _tags_kept(p):
     return t
 
 
+# --- heterogeneous Python containers: the SAME parameter set written down entry by entry ------------------------------------
+#
+# Every other kind hands the library numpy arrays of one dtype (or `.tolist()` of such an array: then every entry has the same
+# Python type).  A parameter set typed in by hand -- the form of the library's own documentation and tests -- is a plain list or
+# tuple whose entries have DIFFERENT scalar types: an autocorrelation [2.0, 0.5+0.25j, ...] (the zero lag is a real number), a
+# polynomial [1, a1, a2, ...] (integer leading 1), reflection coefficients [0.5, 0.2+0.1j, -0.3j] (some of them real), numpy scalars
+# (what indexing an array returns) next to Python scalars.  Kind `hetero`: the per-position scalar types (`codes`) are a generated
+# dimension; every converter that accepts a sequence is run on the list / tuple / object-dtype array / numpy.array(list) of those
+# scalars and must return
+#   (1) what it returns on the float64 / complex128 ndarray holding the same values (tolerance 5e-10 * r0/e as in `forms`),
+#   (2) the reference value of that representation (step-up recursion of the harness, tolerances of `kept` phase (B)),
+#   (3) rc -> poly -> rc and rc -> ac -> rc started from the heterogeneous sequence give back the reflection coefficients,
+# and must leave the sequence (values AND entry types) unchanged.  Scalar arguments (r0, e, the new reflection coefficient of levup)
+# are typed as well (Python float / int, numpy.float64 / int64, 0-d array).
+# A type code that does not fit the value at its position (a real type for a value with non-zero imaginary part, an integer type for
+# a non-integer) falls back to complex / float: the generator makes the reflection coefficients at the real-typed positions real.
+
+H_REAL = ("float", "int", "np.float64", "np.int64", "np.float32")
+H_DEMOTE = {"complex": "float", "np.complex128": "np.float64", "np.complex64": "np.float32"}
+H_PROMOTE = {"float": "complex", "int": "complex", "np.float64": "np.complex128", "np.int64": "np.complex128", "np.float32": "np.complex64"}
+H_CAST = {"float": float, "int": int, "np.float64": np.float64, "np.int64": np.int64, "np.float32": np.float32,
+          "complex": complex, "np.complex128": np.complex128, "np.complex64": np.complex64}
+H_PATTERNS = ("real-first", "real-first-numpy", "scattered", "complex-first", "numpy-scalars", "single")
+H_CONTAINERS = ("list", "tuple", "objarr", "array")
+# object-dtype arrays: numpy.isrealobj is True for them whatever they hold and the numpy ufuncs (tanh, arcsin, exp, roots) reject them.
+# RULING (container outside the documented inputs: arrays of float64 / complex128 or lists of Python numbers; DESIGN 0.9) (see /tmp/finding_C11.py): on the unchanged tree LEVINSON / ac2poly / ac2rc on an object-dtype array holding complex lags
+# take the real-data branch and return wrong numbers (numpy scalars inside) or raise TypeError (Python scalars inside); rlevinson /
+# poly2rc / poly2ac raise TypeError (complex entries) / AttributeError (real entries, order >= 2: levdown calls .conj() on a Python float); rc2lar / lar2rc / rc2is / is2rc / poly2lsf / lsf2poly raise TypeError / NotImplementedError on
+# object-dtype arrays of real numbers.  Object-dtype arrays are therefore handed only to the converters below.
+H_OBJ_OK_COMPLEX = frozenset(("rc2poly", "rc2ac", "levup", "levdown"))
+H_OBJ_OK_REAL = frozenset(("rc2poly", "rc2ac", "levup", "levdown", "ac2poly", "ac2rc", "LEVINSON"))
+H_STATS = None          # set to a dict by the measuring script: worst error / tolerance per (clause, converter)
+# measured on the unchanged tree (42 generator streams, 6200 cases, quick and thorough): worst error / tolerance
+#   5.9e-5  fn(sequence) vs fn(ndarray), 5e-10 * r0/e            [final error of ac2poly]
+#   5.2e-3  fn(sequence) vs harness reference, tolerances of `kept` [final error of ac2poly]
+#   1.7e-3  round trips, 1e-8 * max(1, (r0/e)/20)                  [ac2rc o rc2ac]
+#   1.9e-2  sequences holding numpy.float32 / complex64 scalars, 2e-6 * prod((1+|k|)/(1-|k|))  [error of levdown]
+# i.e. every tolerance is >= 50 times the worst observed.
+
+
+def _hstat(key, d, t):
+    if H_STATS is not None:
+        H_STATS[key] = max(H_STATS.get(key, 0.0), d / t)
+
+
+def _typed(v, code, real_only):
+    """the scalar v as an object of the type named by `code` (same value; np.float32 / np.complex64 round it)"""
+    z = complex(v)
+    if real_only:
+        code = H_DEMOTE.get(code, code)
+    elif code in H_REAL and z.imag != 0:
+        code = H_PROMOTE[code]
+    if code in ("int", "np.int64") and z.real != np.floor(z.real):
+        code = "float" if code == "int" else "np.float64"
+    return H_CAST[code](z.real if code in H_REAL else z)
+
+
+def _hetero(x, codes, real_only):
+    x = np.asarray(x).ravel()
+    return [_typed(v, codes[i % len(codes)], real_only) for i, v in enumerate(x)]
+
+
+def _hbase(h, real_only):
+    """the float64 / complex128 array holding exactly the values of the scalars in h"""
+    if real_only:
+        return np.array([float(v) for v in h], dtype=float)
+    return np.array([complex(v) for v in h], dtype=complex)
+
+
+def _hcontainer(h, container):
+    if container == "tuple":
+        return tuple(h)
+    if container == "objarr":
+        return np.array(h, dtype=object)
+    if container == "array":
+        return np.array(h)
+    return list(h)
+
+
+def _hscalar(v, stype):
+    """scalar argument (r0, e) typed: Python float / int, numpy float64 / int64, 0-d array"""
+    v = float(v)
+    if stype in ("int", "np.int64") and v != np.floor(v):
+        stype = "float" if stype == "int" else "np.float64"
+    if stype == "0-d":
+        return np.array(v)
+    return H_CAST[stype](v)
+
+
+def _hsame(obj, keep_types, keep_vals):
+    if isinstance(obj, np.ndarray) and obj.dtype != object:
+        return np.array_equal(obj, np.asarray(keep_vals))
+    return len(obj) == len(keep_vals) and all(type(u) is t and complex(u) == complex(v) for u, t, v in zip(obj, keep_types, keep_vals))
+
+
+def oracle_hetero(p):
+    k = np.asarray(p["k"])
+    r0 = float(p["r0"])
+    codes = list(p["codes"])
+    stype = p.get("stype", "float")
+    cplx = np.iscomplexobj(k)
+    single = any(cd in ("np.float32", "np.complex64") for cd in codes)
+    # the parameter set is what the typed scalars hold (np.float32 / np.complex64 entries round the reflection coefficients)
+    kh = _hetero(k, codes, not cplx)
+    k = _hbase(kh, not cplx)
+    if not in_domain(k):
+        return ["harness: parameter set outside the stated domain (e/r0 = %.2e)" % _ratio(k)]
+    S = _ref_set(k, r0)
+    if not cplx:
+        try:
+            S["w"] = np.array(_lp().poly2lsf(np.array(S["a"])), dtype=float)
+        except Exception as ex:
+            return ["poly2lsf raised %r on a minimum-phase polynomial of order %d" % (ex, S["order"])]
+    cnd = _cond(k)
+    tolf = 5e-10 * cnd
+    tol32 = 2e-6 * max(1.0, float(np.prod((1 + np.abs(k)) / (1 - np.abs(k)))))
+    if single and cnd > 1e2:
+        return ["harness: single-precision scalars generated for a parameter set with r0/e > 1e2"]
+    containers = p.get("containers", H_CONTAINERS)
+    out = []
+
+    def say(msg):
+        if len(out) < KEPT_MAX_MSG:
+            out.append(msg)
+
+    who = "order %d, %s, entry types %s, scalar arguments %s" % (
+        len(k), "complex" if cplx else "real", "/".join(type(v).__name__ for v in _hetero(S["a"], codes, not cplx)[:4]) + "..", stype)
+    for fn in KEPT_FNS:
+        if cplx and fn in KEPT_REAL_ONLY:
+            continue
+        if single and fn in ("poly2lsf", "lsf2poly"):
+            continue
+        akey, skeys, outs = KEPT_SPEC[fn]
+        h = _hetero(S[akey], codes, not cplx)
+        base = _hbase(h, not cplx)
+        scal_ref = [S[s] for s in skeys]
+        scal = [(_typed(S[s], codes[-1], not cplx) if s == "kp" else _hscalar(S[s], stype)) for s in skeys]
+        if skeys and skeys[0] == "kp":
+            scal_ref[0] = (float if not cplx else complex)(scal[0])
+        f = _kept_fn(fn)
+        try:
+            ref = f(base.copy(), *scal_ref)
+        except Exception as ex:
+            say("%s raised %r on an admissible ndarray (%s)" % (fn, ex, who))
+            continue
+        ref = ref if isinstance(ref, tuple) else (ref,)
+        exact_vals = (not single) or akey == "k"      # the reference representations belong to k, not to a rounded a / R / ...
+        for cont in containers:
+            if cont == "objarr":
+                if single or fn not in (H_OBJ_OK_COMPLEX if cplx else H_OBJ_OK_REAL):
+                    continue
+            obj = _hcontainer(h, cont)
+            keep_types = [type(v) for v in h]
+            sc = list(scal)
+            drop_e = False
+            if fn == "levdown" and cont != "array":
+                # RULING (container outside the documented inputs: arrays of float64 / complex128 or lists of Python numbers; DESIGN 0.9) (see /tmp/finding_C11.py): on the unchanged tree levdown(sequence, e) raises AttributeError
+                # ('float' / 'complex' object has no attribute 'conj') for a list / tuple / object array of Python scalars; the
+                # polynomial step alone works, so the sequence forms are evaluated without the error argument
+                sc = []
+                drop_e = True
+            try:
+                got = f(obj, *sc)
+            except Exception as ex:
+                say("%s raised %r on the parameter set given as a %s of scalars (%s)" % (fn, ex, cont, who))
+                continue
+            got = got if isinstance(got, tuple) else (got,)
+            if len(got) != len(ref):
+                say("%s returned %d values" % (fn, len(got)))
+                continue
+            for o, r, spec in zip(got, ref, outs):
+                if spec is None or (drop_e and spec[0] == "ep"):
+                    continue
+                label, cls = spec
+                t = tol32 if single else (1e-9 if fn in ("poly2lsf", "lsf2poly") else tolf)
+                d = rel(c(o), c(r))
+                _hstat(("vs-ndarray", fn, label, "single" if single else "double"), d, t)
+                if not d <= t:
+                    say("%s(%s of scalars) != %s(ndarray of the same values): %s differs by %.2e (%s)" % (fn, cont, fn, label, d, who))
+                if exact_vals and not single:
+                    t2 = max(_tol(k), 1e-9) if cls == "c" else 1e-9
+                    d2 = _dist(o, S[label], label)
+                    _hstat(("vs-reference", fn, label), d2, t2)
+                    if not d2 <= t2:
+                        say("%s(%s of scalars): %s != reference (step-up recursion of the harness): %.2e (%s)" % (fn, cont, label, d2, who))
+            if not _hsame(obj, keep_types, h):
+                say("%s modified the sequence it was given (%s, %s)" % (fn, cont, who))
+    # (3) the inverse pairs started from the heterogeneous reflection-coefficient sequence
+    lp = _lp()
+    tol = tol32 if single else _tol(k)
+    for cont in containers:
+        if cont == "objarr" and single:
+            continue
+        try:
+            rr = _hscalar(r0, stype)
+            a_h, e_h = lp.rc2poly(_hcontainer(kh, cont), rr)
+            k_b = lp.poly2rc(a_h, e_h)
+            R_h = lp.rc2ac(_hcontainer(kh, cont), rr)
+            k_c, r0_c = lp.ac2rc(R_h if cplx else np.real(R_h))
+        except Exception as ex:
+            say("rc -> poly -> rc / rc -> ac -> rc raised %r, reflection coefficients given as a %s of scalars (%s)" % (ex, cont, who))
+            continue
+        d = _dist(k_b, k, "k")
+        _hstat(("roundtrip", "poly2rc o rc2poly"), d, tol)
+        if not d <= tol:
+            say("poly2rc(rc2poly(k)) != k, k given as a %s of scalars: %.2e (%s)" % (cont, d, who))
+        d = _dist(k_c, k, "k")
+        _hstat(("roundtrip", "ac2rc o rc2ac"), d, tol)
+        if not (d <= tol and abs(r0_c - r0) <= tol * r0):
+            say("ac2rc(rc2ac(k, r0)) != (k, r0), k given as a %s of scalars: %.2e, zero lag %r (%s)" % (cont, d, r0_c, who))
+    return out
+
+
+def _key_hetero(p):
+    k = np.asarray(p["k"])
+    return "hetero|%d|%s|%s|%s|%d" % (len(k), np.iscomplexobj(k), ",".join(p["codes"][:len(k) + 1]), p.get("stype"),
+                                      hash(k.tobytes()) & 0xFFFFFFF)
+
+
+def _tags_hetero(p):
+    k = np.asarray(p["k"])
+    cplx = bool(np.iscomplexobj(k))
+    t = ["hetero", "hetero:" + ("complex" if cplx else "real"), "order:%d" % len(k), "hetero-pattern:%s" % p.get("pattern", "?"),
+         "hetero-scalars:%s" % p.get("stype", "float")]
+    kh = _hetero(k, p["codes"], not cplx)
+    t.append("hetero-first-entry:%s" % type(kh[0]).__name__)
+    if cplx and len(k) >= 2 and not isinstance(kh[0], (complex, np.complexfloating)) and \
+            any(isinstance(v, (complex, np.complexfloating)) and complex(v).imag != 0 for v in kh[1:]):
+        t.append("hetero:real-typed-first-rc-then-complex")
+    for cont in p.get("containers", H_CONTAINERS):
+        t.append("hetero-container:" + cont)
+    return t
+
+
+def gen_codes(nrng, pattern, n=17):
+    cx = ("complex", "np.complex128")
+    if pattern == "real-first":
+        return [("float", "int", "float", "np.float64")[int(nrng.integers(0, 4))]] + ["complex"] * (n - 1)
+    if pattern == "real-first-numpy":
+        return [("np.float64", "np.int64")[int(nrng.integers(0, 2))]] + [cx[int(nrng.integers(0, 2))]] * (n - 1)
+    if pattern == "complex-first":
+        pool = ("float", "int", "np.float64", "complex", "complex")
+        return ["complex"] + [pool[int(i)] for i in nrng.integers(0, len(pool), n - 1)]
+    if pattern == "numpy-scalars":
+        pool = ("np.float64", "np.int64", "np.complex128", "np.complex128", "float", "complex")
+    elif pattern == "single":
+        pool = ("float", "np.float32", "complex", "np.complex64", "np.float32")
+    else:
+        pool = ("float", "int", "np.float64", "np.int64", "complex", "complex", "np.complex128")
+    return [pool[int(i)] for i in nrng.integers(0, len(pool), n)]
+
+
+def gen_hetero(nrng, quick):
+    stypes = ("float", "int", "np.float64", "np.int64", "0-d", "float")
+    j = 0
+    for i in range(80 if quick else 160):
+        order = 1 + i % 16
+        cplx = i % 4 != 3
+        pattern = H_PATTERNS[i % len(H_PATTERNS)] if i >= 16 else H_PATTERNS[i % 2]     # every order once with a real-typed first entry
+        codes = gen_codes(nrng, pattern)
+        for attempt in range(40):
+            k = gen_k_large(nrng, order, cplx) if (i + attempt) % 5 == 4 and pattern != "single" else gen_k(nrng, order, cplx)
+            if pattern == "single":
+                k = k * 0.5
+            if cplx:
+                # the reflection coefficients at the real-typed positions are real numbers (at integer-typed positions: half of them 0)
+                for m in range(order):
+                    if codes[m] in H_REAL:
+                        k[m] = k[m].real if (codes[m] not in ("int", "np.int64") or (m + i) % 2) else 0.0
+                if order >= 2 and not np.any(k[1:].imag):
+                    k[-1] = k[-1].real + 0.25j
+            else:
+                for m in range(order):
+                    if codes[m] in ("int", "np.int64") and (m + i) % 2:
+                        k[m] = 0.0
+            if in_domain(k) and not (pattern == "single" and _cond(k) > 1e2):
+                break
+        else:
+            k = np.array(gen_k(nrng, order, cplx) * 0.25)
+            if cplx:
+                k[0] = k[0].real
+        # list always, one more container in rotation (quick); all four (thorough)
+        conts = ["list", H_CONTAINERS[1 + j % 3]] if quick else list(H_CONTAINERS)
+        j += 1
+        yield ("hetero", {"k": k, "r0": float(nrng.integers(1, 9)) / 2.0, "codes": codes, "pattern": pattern,
+                          "stype": stypes[(i + i // 6) % len(stypes)], "containers": conts})
+
+
+# --- integer-dtype arrays and lists of Python ints ----------------------------------------------------------------------------
+# The only admissible parameter sets whose entries are all integers: white noise (k = 0, a = [1, 0, ..], R = [r0, 0, ..] with an
+# integer zero lag; integer autocorrelations in general are the kind `acint`), integer log-area ratios (|g| <= 4: |tanh(g/2)| <= 0.965),
+# integer line spectral frequencies (subsets of {1, 2, 3}), and the polynomial [1, 0, .., 0] stepped up by levup.  Given as an array
+# of an integer dtype or as a list of Python ints, every converter returns what it returns for the float64 array of the same numbers
+# (1e-12: the same arithmetic on the same numbers); lar2rc / lsf2poly are also compared with tanh(g/2) / the quadratic-factor polynomial.
+
+INT_DTYPES = ("int64", "int32", "int16", "int8", "uint8", "list")
+
+
+def oracle_intdtype(p):
+    lp = _lp()
+    n = int(p["order"])
+    r0 = int(p["r0"])
+    dt = p["dtype"]
+    g = [int(v) for v in p["g"]]
+    w = [int(v) for v in p["lsf"]] if p.get("lsf") is not None else None
+    out = []
+
+    def mk(vals):
+        return [int(v) for v in vals] if dt == "list" else np.array(vals, dtype=np.dtype(dt))
+
+    k0 = [0] * n
+    a0 = [1] + [0] * n
+    R0 = [r0] + [0] * n
+    calls = [("rc2poly", k0, (r0,)), ("rc2ac", k0, (r0,)), ("poly2rc", a0, (float(r0),)), ("poly2ac", a0, (float(r0),)),
+             ("ac2poly", R0, ()), ("ac2rc", R0, ()), ("rlevinson", a0, (float(r0),)), ("LEVINSON", R0, ()),
+             ("levup", a0, (0.5, float(r0))), ("rc2lar", k0, ()), ("rc2is", k0, ()), ("is2rc", k0, ()), ("poly2lsf", a0, ()),
+             ("lar2rc", g, ())]
+    if dt != "list":
+        calls.append(("levdown", a0, (float(r0),)))     # (levdown on a list with the error argument: PENDING-FINDING, see kind hetero)
+    if w is not None:
+        calls.append(("lsf2poly", w, ()))
+    for fn, vals, scal in calls:
+        if fn == "lar2rc" and dt.startswith("uint"):
+            # RULING (container outside the documented inputs: arrays of float64 / complex128 or lists of Python numbers; DESIGN 0.9) (see /tmp/finding_C11.py): lar2rc negates its argument in the argument's own dtype; for an unsigned
+            # integer array -g wraps around (g = 1 -> 255) and the reflection coefficients come out as -1 instead of tanh(g/2)
+            continue
+        f = _kept_fn(fn)
+        obj = mk(vals)
+        keep = list(obj) if isinstance(obj, list) else obj.copy()
+        try:
+            got = f(obj, *scal)
+            ref = f(np.array(vals, dtype=float), *scal)
+        except Exception as ex:
+            out.append("%s raised %r on an admissible integer parameter set given as %s (order %d)" % (fn, ex, dt, n))
+            continue
+        got = got if isinstance(got, tuple) else (got,)
+        ref = ref if isinstance(ref, tuple) else (ref,)
+        for i, (o, r) in enumerate(zip(got, ref)):
+            if o is None or np.ndim(o) > 1:
+                continue
+            if not rel(c(o), c(r)) <= 1e-12:
+                out.append("%s(%s) != %s(float64 array of the same integers): output %d differs by %.2e (order %d)" % (
+                    fn, dt, fn, i, rel(c(o), c(r)), n))
+        same = (obj == keep) if isinstance(obj, list) else (obj.dtype == keep.dtype and np.array_equal(obj, keep))
+        if not same:
+            out.append("%s modified its integer input (%s)" % (fn, dt))
+    if not dt.startswith("uint"):
+        kk = np.asarray(lp.lar2rc(mk(g)))
+        if not rel(c(kk), c(np.tanh(np.array(g, dtype=float) / 2.0))) <= 1e-12:
+            out.append("lar2rc(integer log-area ratios as %s) != tanh(g/2): %.2e" % (dt, rel(c(kk), c(np.tanh(np.array(g, dtype=float) / 2.0)))))
+        if not rel(c(lp.rc2lar(kk)), c(np.array(g, dtype=float))) <= 1e-9:
+            out.append("rc2lar(lar2rc(g)) != g for integer log-area ratios (%s)" % dt)
+    if w is not None:
+        a = np.asarray(lp.lsf2poly(mk(w)))
+        aref = _ref_lsf2poly(np.array(w, dtype=float))
+        if not rel(c(a), c(aref)) <= 1e-10:
+            out.append("lsf2poly(integer angles as %s) != (P1 + Q1)/2 built from the quadratic factors: %.2e" % (dt, rel(c(a), c(aref))))
+        else:
+            w2 = np.asarray(lp.poly2lsf(a))
+            if w2.shape != (len(w),) or not rel(w2, np.array(w, dtype=float)) <= 1e-8:
+                out.append("poly2lsf(lsf2poly(w)) != w for integer angles %s (%s)" % (w, dt))
+    return out
+
+
+def gen_intdtype(nrng, quick):
+    lsfs = [w for w in ([1], [2], [3], [1, 2], [1, 3], [2, 3], [1, 2, 3])
+            if (lambda kk: kk is not None and in_domain(kk))(_ref_stepdown(_ref_lsf2poly(np.array(w, dtype=float))))]
+    for i in range(12 if quick else 48):
+        n = 1 + (i * 5) % 16
+        dt = INT_DTYPES[i % len(INT_DTYPES)]
+        g = nrng.integers(-4, 5, n)
+        if dt.startswith("uint"):
+            g = np.abs(g)
+        yield ("intdtype", {"order": n, "r0": int(nrng.integers(1, 9)), "dtype": dt, "g": [int(v) for v in g],
+                            "lsf": lsfs[i % len(lsfs)] if lsfs else None})
+
+
 def impl_lsf(p):
     return [c(_lp().lsf2poly(p["lsf"]))]
 
@@ -1082,6 +1479,11 @@ KINDS["lsfinv"] = {"oracle": oracle_lsfinv, "key": KINDS["lsf"]["key"],
                    "tags": lambda p: ["lsfinv", "order:%d" % len(p["lsf"])] + ["lsfinv-dropped"] * int(p.get("ndrop", 0)),
                    "nontrivial": lambda p: len(p["lsf"]) >= 2}
 KINDS["kept"] = {"oracle": oracle_kept, "key": _key_kept, "tags": _tags_kept, "nontrivial": lambda p: len(p["sets"][0]["k"]) >= 2}
+KINDS["hetero"] = {"oracle": oracle_hetero, "key": _key_hetero, "tags": _tags_hetero, "nontrivial": lambda p: len(p["k"]) >= 2}
+KINDS["intdtype"] = {"oracle": oracle_intdtype,
+                     "key": lambda p: "intdtype|%d|%s|%d|%s|%s" % (p["order"], p["dtype"], p["r0"], p["g"], p.get("lsf")),
+                     "tags": lambda p: ["intdtype", "intdtype:%s" % p["dtype"], "order:%d" % p["order"]],
+                     "nontrivial": lambda p: p["order"] >= 2}
 KINDS["acint"] = {"oracle": oracle_acint,
                   "key": lambda p: "acint|" + ",".join(str(int(v)) for v in p["R"]),
                   "tags": lambda p: ["acint", "order:%d" % (len(p["R"]) - 1)], "nontrivial": lambda p: len(p["R"]) >= 3}
@@ -1291,4 +1693,10 @@ def gen(rng, nrng, tier):
             yield ("acint", {"R": R})
     # results of earlier conversions kept while later conversions run (own random stream: the cases above stay what they were)
     for case in gen_kept(np.random.default_rng([int(nrng.integers(0, 2 ** 31)), 11]), quick):
+        yield case
+    # the same parameter sets written down entry by entry: heterogeneous lists / tuples / object arrays of scalars, integer dtypes
+    # (own random streams again)
+    for case in gen_hetero(np.random.default_rng([int(nrng.integers(0, 2 ** 31)), 12]), quick):
+        yield case
+    for case in gen_intdtype(np.random.default_rng([int(nrng.integers(0, 2 ** 31)), 13]), quick):
         yield case
